@@ -124,22 +124,11 @@ pub fn check_fault_case(case: &FaultCase, info: &mut CaseInfo) -> Result<(), Str
 	let (mut n_ok, mut n_err) = (0, 0);
 	for (i, op) in case.ops.iter().enumerate() {
 		let failed_before = plan.failed.load(Ordering::SeqCst);
-		// (signed bytes, signature) of the artefact, or the error
-		let res: Result<(Vec<u8>, Vec<u8>), rcgen::Error> = match op {
-			Op::SelfSigned => mk::cert_params(&case.spec)?.self_signed(&shared).map(|c| {
-				let (d, _) = decode_cert(c.der()).expect("decodes");
-				(d.tbs_raw, d.signature)
-			}),
-			Op::SignedBy => mk::cert_params(&case.spec)?
-				.signed_by(&subject_key, &issuer_cert, &shared)
-				.map(|c| {
-					let (d, _) = decode_cert(c.der()).expect("decodes");
-					(d.tbs_raw, d.signature)
-				}),
-			Op::Csr => mk::cert_params(&case.spec)?.serialize_request(&shared).map(|c| {
-				let (d, _) = decode_csr(c.der()).expect("decodes");
-				(d.cri_raw, d.signature)
-			}),
+		// the artefact's DER, or the error
+		let res: Result<Vec<u8>, rcgen::Error> = match op {
+			Op::SelfSigned => mk::cert_params(&case.spec)?.self_signed(&shared).map(|c| c.der().to_vec()),
+			Op::SignedBy => mk::cert_params(&case.spec)?.signed_by(&subject_key, &issuer_cert, &shared).map(|c| c.der().to_vec()),
+			Op::Csr => mk::cert_params(&case.spec)?.serialize_request(&shared).map(|c| c.der().to_vec()),
 			Op::Crl => {
 				let crl = CrlSpec {
 					this_update: TimeSpec { unix: 1_600_000_000, nanos: 0, offset: 0 },
@@ -149,10 +138,7 @@ pub fn check_fault_case(case: &FaultCase, info: &mut CaseInfo) -> Result<(), Str
 					revoked: vec![],
 					kid: case.spec.kid.clone(),
 				};
-				mk::crl_params(&crl)?.signed_by(&issuer_cert, &shared).map(|c| {
-					let (d, _) = decode_crl(c.der()).expect("decodes");
-					(d.tbs_raw, d.signature)
-				})
+				mk::crl_params(&crl)?.signed_by(&issuer_cert, &shared).map(|c| c.der().to_vec())
 			},
 		};
 		let signer_failed = plan.failed.load(Ordering::SeqCst) > failed_before;
@@ -164,9 +150,15 @@ pub fn check_fault_case(case: &FaultCase, info: &mut CaseInfo) -> Result<(), Str
 				return Err(format!("call #{i} ({op:?}): returned Err({e}) although the signer did not fail"));
 			},
 			(Err(_), true) => n_err += 1,
-			(Ok((signed, sig)), false) => {
+			(Ok(der), false) => {
 				n_ok += 1;
-				verify_sig(&case.key, signed, sig).map_err(|e| format!("call #{i} ({op:?}) next to a failing call: {e}"))?;
+				let (signed, sig) = match op {
+					Op::SelfSigned | Op::SignedBy => decode_cert(der).map(|(d, _)| (d.tbs_raw, d.signature)),
+					Op::Csr => decode_csr(der).map(|(d, _)| (d.cri_raw, d.signature)),
+					Op::Crl => decode_crl(der).map(|(d, _)| (d.tbs_raw, d.signature)),
+				}
+				.map_err(|e| format!("call #{i} ({op:?}) next to a failing call: {e}"))?;
+				verify_sig(&case.key, &signed, &sig).map_err(|e| format!("call #{i} ({op:?}) next to a failing call: {e}"))?;
 			},
 		}
 	}
@@ -284,7 +276,7 @@ fn gen_key_case() -> BoxedStrategy<GenKeyCase> {
 pub fn def() -> PropertyDef {
 	PropertyDef {
 		id: "C01",
-		rule: "Generated certificates (self-/issuer-signed, three public-key sources), CSRs (with attributes) and CRLs for every key algorithm of this back end, local and remote; the harness decoder cuts out the exact signed bytes; OpenSSL verifies the signature over them under the signer's key; inner and outer AlgorithmIdentifier must be byte-identical and equal the RFC table. Keys generated by rcgen itself (generate_for for every algorithm; under aws-lc-rs also generate_rsa_for with 2048/3072/4096 bits) sign a certificate, a CSR and a CRL without ever being saved or reloaded; the public key is the one OpenSSL derives from the exported private key. Fault sequences: 1..6 generation calls share a remote signer that fails on a generated subset of its sign calls. Non-trivial = optional fields present, or key not local P-256; fault case non-trivial = at least one failing and one succeeding call.",
+		rule: "Generated certificates (self-/issuer-signed, three public-key sources), CSRs (with attributes) and CRLs for every key algorithm of this back end, local and remote; the harness decoder cuts out the exact signed bytes; OpenSSL verifies the signature over them under the signer's key; inner and outer AlgorithmIdentifier must be byte-identical and equal the RFC table. Keys generated by rcgen itself (generate_for for every algorithm; under aws-lc-rs also generate_rsa_for with 2048/3072/4096 bits) sign a certificate, a CSR and a CRL without ever being saved or reloaded; the public key is the one OpenSSL derives from the exported private key. Fault sequences: 1..6 generation calls share a remote signer that fails on a generated subset of its sign calls, reporting the failure through varying error values. Non-trivial = optional fields present, or key not local P-256; fault case non-trivial = at least one failing and one succeeding call.",
 		assumptions: vec![
 			"OpenSSL's EVP signature verification and its SPKI encoding of the fixture keys",
 			"the harness DER reader finds the byte range of the signed part correctly (unit-tested, cross-checked against OpenSSL by C12/C03 which verify whole certificates)",
